@@ -62,6 +62,32 @@ Theorem C14_total_partial :
 Proof. exact example_total. Qed.
 Print Assumptions C14_total_partial.
 
+(** the same theorem with the hypotheses as boolean checkers that are
+    evaluated on concrete registries ([rk] lists one rank per position); the
+    hypotheses are satisfiable: [Proofs.ExampleRustProofs.demo_hypotheses]
+    evaluates them to [true] on a registry with a struct that is recursive
+    through a Vec field, a generic unit struct with an unused parameter, an
+    enum, an array of tuples and an explicit compact field *)
+Theorem C14_total_checked_partial :
+  forall (r : registry) (s : settings) (rk : list nat),
+    rankedb r rk = true -> names_lexb r = true -> tg_totalb r s = true ->
+    forall (id : N) (ws : words),
+      match example_rust r s id ws with
+      | XPanic _ => False
+      | XErr XOutOfFuel => False
+      | _ => True
+      end.
+Proof. exact example_total_b. Qed.
+Print Assumptions C14_total_checked_partial.
+
+Theorem C14_hypotheses_satisfiable :
+  exists (r : registry) (s : settings) (rk : list nat),
+    rankedb r rk = true /\ names_lexb r = true /\ tg_totalb r s = true /\
+    (exists id ws e, example_rust r s id ws = XErr e) /\
+    (exists id ws t, example_rust r s id ws = XOk t).
+Proof. exact hypotheses_satisfiable. Qed.
+Print Assumptions C14_hypotheses_satisfiable.
+
 (** determinism is by construction: equal inputs give equal outputs *)
 Theorem C14_deterministic :
   forall (r : registry) (s : settings) (id : N) (ws ws' : words),
